@@ -785,6 +785,14 @@ def format_docstring(obj: model.Documentable) -> Tag:
 
     source = ensure_parsed_docstring(obj)
 
+    if source is not None and source.page_object is not obj.page_object:
+        # The docstring is inherited from an object documented on another page:
+        # do not optimize urls relatively to the page of the source, generate full urls. 
+        with source.docstring_linker.switch_context(None):
+            return _format_docstring(obj, source)
+    return _format_docstring(obj, source)
+
+def _format_docstring(obj: model.Documentable, source: Optional[model.Documentable]) -> Tag:
     ret: Tag = tags.div
     if source is None:
         ret(tags.p(class_='undocumented')("Undocumented"))
